@@ -73,10 +73,9 @@ Qed.
 Lemma usb_string_spec : forall buf f, usb_inv (buf, f) ->
   nf (usb_string buf f) = true /\ units (usb_string buf f) = buf.
 Proof.
-  intros buf f Hi. unfold usb_inv in Hi. simpl in Hi. unfold usb_string. destruct f; simpl; auto.
-  destruct buf as [|c buf]; simpl; auto.
-  change (c mod 256 :: map (fun c0 => c0 mod 256) buf) with (map (fun c0 => c0 mod 256) (c :: buf)).
-  rewrite mod256_ascii by exact Hi. auto.
+  intros buf f Hi. unfold usb_inv in Hi. simpl in Hi. unfold usb_string. destruct f; [simpl; auto|].
+  destruct buf as [|c buf]; [simpl; auto|]. cbv beta iota.
+  rewrite (mod256_ascii (c :: buf) Hi). split; [exact Hi|reflexivity].
 Qed.
 
 (* String.fromCodePoint through StringBuilder.WriteRune *)
@@ -94,18 +93,12 @@ Proof.
       * rewrite has_uni_app, Hi. reflexivity.
       * rewrite all_ascii_app, Hi. simpl. unfold is_ascii. rewrite Er. reflexivity.
   - apply N.ltb_ge in Er.
-    assert (Hb : (let '(buf, f) := match b with SBA bs => (bs, false) | SBU buf f => (buf, f) end in buf) = sb_buf b)
-      by (destruct b; reflexivity).
-    destruct b as [bs|buf f]; simpl in *.
-    + unfold enc16. destruct (r <=? 65535) eqn:E; simpl; unfold usb_inv; simpl; split; auto;
-        rewrite has_uni_app; [|]; (rewrite <- ?(has_uni_enc16 r Er) at 1); unfold enc16; rewrite E; simpl;
-        try apply orb_true_r.
-      * pose proof (has_uni_enc16 r Er) as Hh. unfold enc16 in Hh. rewrite E in Hh. rewrite Hh. apply orb_true_r.
-      * pose proof (has_uni_enc16 r Er) as Hh. unfold enc16 in Hh. rewrite E in Hh. rewrite Hh. apply orb_true_r.
-    + unfold enc16. destruct (r <=? 65535) eqn:E; simpl; unfold usb_inv; simpl; split; auto;
-        rewrite has_uni_app.
-      * pose proof (has_uni_enc16 r Er) as Hh. unfold enc16 in Hh. rewrite E in Hh. rewrite Hh. apply orb_true_r.
-      * pose proof (has_uni_enc16 r Er) as Hh. unfold enc16 in Hh. rewrite E in Hh. rewrite Hh. apply orb_true_r.
+    assert (Hw : (let '(buf, f) := match b with SBA bs => (bs, false) | SBU buf f => (buf, f) end in
+                  if r <=? 65535 then SBU (buf ++ [r]) true else SBU (buf ++ enc16 r) true)
+                 = SBU (sb_buf b ++ enc16 r) true).
+    { destruct b; simpl; unfold enc16; destruct (r <=? 65535); reflexivity. }
+    rewrite Hw. simpl. unfold usb_inv. simpl. split; [|reflexivity].
+    rewrite has_uni_app, (has_uni_enc16 r Er). apply orb_true_r.
 Qed.
 
 Lemma sb_fold_spec : forall cps b, sb_inv b ->
@@ -175,6 +168,12 @@ Proof. exists [97; 195], [169; 98]. vm_compute. discriminate. Qed.
 Lemma has_uni_false_ascii : forall l, has_uni l = false -> all_ascii l = true.
 Proof. intros l H. rewrite has_uni_all_ascii in H. destruct (all_ascii l); auto. Qed.
 
+Lemma in_firstn' : forall (n : nat) (l : list N) x, In x (firstn n l) -> In x l.
+Proof. induction n; destruct l; simpl; intros x H; auto; try contradiction. destruct H; auto. Qed.
+
+Lemma in_skipn' : forall (n : nat) (l : list N) x, In x (skipn n l) -> In x l.
+Proof. induction n; destruct l; simpl; intros x H; auto. Qed.
+
 Lemma substring_spec : forall a s e, nf a = true ->
   nf (substring a s e) = true /\ units (substring a s e) = cut (units a) s e.
 Proof.
@@ -182,7 +181,7 @@ Proof.
   pose proof (nf_devirt a Ha) as Hn. pose proof (units_devirt a) as Hu. pose proof (devirt_shape a) as Hsh.
   rewrite <- Hu. destruct (devirt a) as [bs|us|? ?]; [| |inversion Hsh]; simpl in *.
   - split; auto. unfold cut, all_ascii in *. rewrite forallb_forall in *. intros x Hx.
-    apply Hn. apply firstn_In in Hx. revert Hx. clear. revert bs. induction s; destruct bs; simpl; auto.
+    apply Hn. apply in_firstn' in Hx. apply in_skipn' in Hx. exact Hx.
   - destruct (has_uni (cut us s e)) eqn:E; simpl; auto.
     apply has_uni_false_ascii in E. rewrite mod256_ascii by exact E. auto.
 Qed.
@@ -238,7 +237,7 @@ Qed.
 
 Lemma hash_bytes_raw_key : forall a, hash_bytes a = raw_key a.
 Proof.
-  destruct a as [bs|us|s sc]; simpl; auto. destruct (scan s); reflexivity.
+  destruct a as [bs|us|s sc]; unfold raw_key; simpl; auto. destruct (scan s); reflexivity.
 Qed.
 
 Lemma ascii_ne_uni : forall bs us, all_ascii bs = true -> has_uni us = true -> bs <> us.
